@@ -54,6 +54,7 @@ fn check_exclusion_table() {
 fn evaluate(tc: &cbuild::Toolchain, case: &Case, cfg: &CConfig, dir: &Path) -> Value {
     let t0 = std::time::Instant::now();
     let mut rec = json!({"case": case.id, "config": cfg.name()});
+    let times = std::cell::RefCell::new([0f64; 5]);
     let (resolve, world) = match worlds::load(case) {
         Ok(x) => x,
         Err(e) => {
@@ -62,13 +63,21 @@ fn evaluate(tc: &cbuild::Toolchain, case: &Case, cfg: &CConfig, dir: &Path) -> V
             return rec;
         }
     };
+    times.borrow_mut()[0] = t0.elapsed().as_secs_f64();
     let one = |resolve: &wit_parser::Resolve, sub: &str| -> Result<Value, cbuild::Fail> {
+        let t1 = std::time::Instant::now();
         let files = cbuild::generate(resolve, world, cfg).map_err(|m| cbuild::Fail { stage: "generate", msg: trim_msg(&m) })?;
+        times.borrow_mut()[1] += t1.elapsed().as_secs_f64();
         let d = dir.join(sub);
         let r = (|| {
             let built = cbuild::build(tc, &d, &files)?;
+            times.borrow_mut()[2] += built.t_clang;
+            times.borrow_mut()[3] += built.t_link;
+            let t2 = std::time::Instant::now();
             let want = compo::world_sig(resolve, world);
-            let clen = cbuild::check_component(&built.module, &want)?;
+            let r = cbuild::check_component(&built.module, &want);
+            times.borrow_mut()[4] += t2.elapsed().as_secs_f64();
+            let clen = r?;
             Ok(json!({
                 "stubs": built.n_export_stubs, "module_bytes": built.module.len(), "component_bytes": clen,
                 "c_bytes": built.c_bytes, "imports": want.imports.len(), "exports": want.exports.len(),
@@ -76,6 +85,7 @@ fn evaluate(tc: &cbuild::Toolchain, case: &Case, cfg: &CConfig, dir: &Path) -> V
         })();
         if std::env::var_os("VERIF_KEEP").is_none() {
             let _ = std::fs::remove_dir_all(&d);
+            let _ = std::fs::remove_dir(dir);
         }
         r
     };
@@ -114,6 +124,7 @@ fn evaluate(tc: &cbuild::Toolchain, case: &Case, cfg: &CConfig, dir: &Path) -> V
         }
     }
     rec["secs"] = json!(t0.elapsed().as_secs_f64());
+    rec["times"] = json!(times.borrow().to_vec());
     rec
 }
 
@@ -135,7 +146,14 @@ fn main() {
         let mut bad = 0;
         for (i, cfg) in cfgs.iter().enumerate() {
             let r = evaluate(&tc, &case, cfg, &scratch.path.join(format!("r{i}")));
-            println!("  [{}] outcome={} stage={} {}", cfg.name(), r["outcome"].as_str().unwrap_or(""), r["stage"].as_str().unwrap_or("-"), r["msg"].as_str().unwrap_or(""));
+            println!(
+                "  [{}] outcome={}{} stage={} {}",
+                cfg.name(),
+                r["outcome"].as_str().unwrap_or(""),
+                if r["async_on_sync_rejected"] == true { " (on the derived async-typed world; the world as given was rejected by ComponentEncoder: the `async` canonical option requires an async function type)" } else { "" },
+                r["stage"].as_str().unwrap_or("-"),
+                r["msg"].as_str().unwrap_or("")
+            );
             if r["outcome"] == "fail" || r["async_on_sync_rejected"] == true {
                 bad += 1;
             }
@@ -182,7 +200,11 @@ fn main() {
                     continue;
                 }
                 eligible_worlds += 1;
-                for cfg in &all_cfgs {
+                for (ci, cfg) in all_cfgs.iter().enumerate() {
+                    // quick: default/utf8 plus two of the other seven, rotating with the world index
+                    if !thorough && ci != 0 && ci != 1 + (i % 7) && ci != 1 + ((i + 3) % 7) {
+                        continue;
+                    }
                     if cfg.async_all && f.nested_future_or_stream {
                         async_skipped_nested += 1;
                         continue;
@@ -215,10 +237,16 @@ fn main() {
     let mut samples = vcommon::Samples::new(12);
     let mut tried: BTreeMap<usize, usize> = BTreeMap::new();
     let mut secs = 0.0;
+    let mut stage_secs = [0f64; 5];
     for (k, r) in results.iter().enumerate() {
         let (i, cfg) = &work[k];
         *tried.entry(*i).or_default() += 1;
         secs += r["secs"].as_f64().unwrap_or(0.0);
+        if let Some(t) = r["times"].as_array() {
+            for (j, x) in t.iter().enumerate() {
+                stage_secs[j] += x.as_f64().unwrap_or(0.0);
+            }
+        }
         if r["async_on_sync_rejected"] == true {
             async_class.push((*i, cfg.name()));
         }
@@ -299,6 +327,7 @@ fn main() {
             "type_families": worlds::type_families(false, false).iter().map(|f| json!({"family": f.0, "types": f.2.len()})).collect::<Vec<_>>(),
             "configurations": all_cfgs.iter().map(|c| c.name()).collect::<Vec<_>>(),
             "corpus_step": corpus_step,
+            "configurations_per_world": if thorough { "all 8" } else { "default/utf8 + 2 rotating" },
         },
         "ok": ok,
         "ok_on_derived_async_typed_world": derived_ok,
@@ -311,7 +340,8 @@ fn main() {
         "excluded_worlds": excluded,
         "wit_rejected": rejected,
         "toolchain": {"clang": tc.clang_version, "clang_flags": cbuild::CLANG_FLAGS, "ld_flags": cbuild::LD_FLAGS},
-        "cpu_seconds": secs,
+        "worker_seconds": secs,
+        "worker_seconds_by_stage": {"load": stage_secs[0], "generate": stage_secs[1], "clang": stage_secs[2], "wasm-ld": stage_secs[3], "encode+decode+compare": stage_secs[4]},
         "samples": samples.items,
     });
     scratch.remove();
